@@ -1241,7 +1241,8 @@ class Delay(Function):
     def term(self, time="t"):
         delayed_time = "{} - {}".format(str(time),
                                         self.delay_duration.term(str(self.model.starttime)))
-        return "({} if {}>={} else {})".format(
+        # the tolerance absorbs float noise in t - duration (0.7-0.2 is 0.49999999999999994, not 0.5)
+        return "({} if {}>={}-model.dt*1e-6 else {})".format(
             self.input_function.term(delayed_time),
             delayed_time,
             str(self.model.starttime),
